@@ -81,6 +81,22 @@ Proof.
 Qed.
 Print Assumptions C15_qe_sources.
 
+(* conversion_with_qe_map: the per-pixel range check read from the source is 0 <= q <= 1; an accepted map
+   converts every pixel with its own efficiency (exactly q*p, between zero and the photons of THAT pixel); a map
+   with a value outside [0, 1] is refused *)
+Theorem C15_qe_map : forall qs photon,
+  (forall q, src_qe_map_range q = true <-> 0 <= q <= 1)
+  /\ (forall out, length qs = length photon -> nonneg photon -> qe_map_model qs photon = Some out ->
+       Forall (fun q => 0 <= q <= 1) qs
+       /\ Forall2 (fun qp o => o == fst qp * snd qp /\ 0 <= o <= snd qp) (combine qs photon) out)
+  /\ (qe_map_model qs photon = None <-> ~ Forall (fun q => 0 <= q <= 1) qs).
+Proof.
+  intros. split.
+  - intros q. unfold src_qe_map_range. rewrite andb_true_iff, !Qle_bool_iff. tauto.
+  - split; [intros out; apply qe_map_bounds | apply qe_map_refused].
+Qed.
+Print Assumptions C15_qe_map.
+
 (* ------------------------------------------------------------------------------------------ full well *)
 Theorem C15_fullwell : forall c x,
   src_full_well c x == Qmin x c
@@ -323,6 +339,10 @@ Example ex_degenerate_draw_satisfiable :
   let b := fun (n : Z) (q : Q) => if Qeq_bool q 0 then 0%Z else n in
   (forall n, (0 <= n)%Z -> b n 1 = n) /\ (forall n, (0 <= n)%Z -> b n 0 = 0%Z).
 Proof. split; intros; reflexivity. Qed.
+
+Example ex_qe_map : qe_map_model [1 # 2; 0; 1] [7 # 2; 9; 5 # 4] = Some [(7 # 2) * (1 # 2); 9 * 0; (5 # 4) * 1]
+  /\ qe_map_model [1 # 2; 5 # 4] [3; 3] = None.
+Proof. split; reflexivity. Qed.
 
 Example ex_ipc_in_range : ipc_guard (1 # 8) (1 # 16) (1 # 32) = true
   /\ uniform 7 [[7; 7]; [7; 7]] /\ concat [[7; 7]; [7; 7]] <> [].
